@@ -315,11 +315,17 @@ def check_cluster_name_validated(ck, R2, shape):
     d_cluster, d_module, d_version = shape if shape is not None else ("::", ":", "#")
     need = {d_module[0], d_version}
     ok = False
+    # a raise guarded by a test whose VALUE is computed from the name and from all the later delimiters (the
+    # test itself, or locals / comprehensions it is computed from: `bad = [c for c in '#:' if c in name]; if bad:`)
     for r in fa.stmts(ast.Raise):
         g = fa.enclosing(r, ast.If)
         while g is not None and not ok:
-            if need <= set("".join(A.strings_in(g.test))) and "name" in A.norm(g.test):
-                ok = True
+            if fa.nodes(g.test):
+                fl = [n for (n, a_) in flow_nodes(fa, g.test, fa.nodes(g.test)[0])]
+                chars = set("".join(n.value for n in fl if isinstance(n, ast.Constant) and isinstance(n.value, str)))
+                about_name = any((isinstance(n, ast.Name) and n.id == "name") or (isinstance(n, ast.Attribute) and n.attr == "name") for n in fl)
+                if need <= chars and about_name:
+                    ok = True
             g = fa.enclosing(g, ast.If)
     ck.ob(R2, fa.key(None, "cluster-name-validated"), ok,
           "a cluster name containing %s is refused" % sorted(need) if ok else
